@@ -42,7 +42,14 @@ def common_doc(r, depth=3):
     if c < 0.65:
         return [common_doc(r, depth - 1) for _ in range(r.randint(0, 4))]
     ks = r.sample(("a", "b", "c", "ab", "key", "Name", "x1", "yes", "no", "null", "n1"), r.randint(0, 4))
-    return {k: common_doc(r, depth - 1) for k in ks}
+    d = {k: common_doc(r, depth - 1) for k in ks}
+    if len(ks) >= 2 and r.random() < 0.25:
+        # the SAME sub-object under two keys: YAML writes it once with an anchor and refers to it with an alias
+        # (a serialisation detail of that format; the data is the same tree in every format)
+        shared = d[ks[0]] if isinstance(d[ks[0]], (list, dict)) else [common_doc(r, 0), common_doc(r, 0)]
+        d[ks[0]] = shared
+        d[ks[1]] = shared
+    return d
 
 
 def _no_null(x):
